@@ -1,6 +1,7 @@
 (* Dispatcher for the Num area (C01): executable entry points used by the
    correspondence check.  Wire format of a BigUint: ("s" n) | ("l" (limb ...)). *)
-From FendV Require Import Base.Prelude Num.BigUint.
+From Coq Require Import QArith.
+From FendV Require Import Base.Prelude Num.BigUint Num.BigRat Num.RealCx Num.Expr.
 Open Scope N_scope.
 
 Definition sx_bu (a : biguint) : sx :=
@@ -34,8 +35,8 @@ Definition run_bu2 (op : list N) (oc : bool) (a b : biguint) : option sx :=
   else if opeq op "bu-divmod" then Some (sx_res sx_bu2 (divmod oc a b))
   else if opeq op "bu-gcd" then Some (sx_res sx_bu (gcd oc a b))
   else if opeq op "bu-pow" then Some (sx_res sx_bu (pow a b))
-  else if opeq op "bu-add-known" then Some (sx_bool (add_known a b))
-  else if opeq op "bu-pow-known" then Some (sx_bool (pow_known a b))
+  else if opeq op "bu-add-old" then Some (XL [XS (B"ok"); sx_bu (add_old a b)])
+  else if opeq op "bu-pow-old" then Some (sx_res sx_bu (pow_old a b))
   else None.
 
 Definition run_bu1 (op : list N) (oc : bool) (a : biguint) : option sx :=
@@ -46,18 +47,124 @@ Definition run_bu1 (op : list N) (oc : bool) (a : biguint) : option sx :=
   else if opeq op "bu-wf" then Some (XL [XS (B"ok"); sx_bool (wf a)])
   else None.
 
+(* BigRat: ("r" neg num den) *)
+Definition sx_rat (x : bigrat) : sx :=
+  XL [XS (B"r"); XA (if is_neg (rsign x) then 1 else 0)%Z; sx_bu (rnum x); sx_bu (rden x)].
+
+Definition as_rat (s : sx) : option bigrat :=
+  match s with
+  | XL [XS k; XA z; n; d] =>
+    if opeq k "r" then
+      match as_bu n, as_bu d with
+      | Some n', Some d' => Some (mkrat (if (z =? 0)%Z then Positive else Negative) n' d')
+      | _, _ => None
+      end
+    else None
+  | _ => None
+  end.
+
+Definition sx_exact_rat (p : bigrat * bool) : sx := XL [sx_bool (snd p); sx_rat (fst p)].
+
+Definition run_br2 (op : list N) (oc : bool) (x y : bigrat) : option sx :=
+  if opeq op "br-add" then Some (sx_res sx_rat (add_internal oc x y))
+  else if opeq op "br-mul" then Some (XL [XS (B"ok"); sx_rat (rmul x y)])
+  else if opeq op "br-div" then Some (sx_res sx_rat (rdiv x y))
+  else if opeq op "br-pow" then Some (sx_res sx_exact_rat (rpow oc x y))
+  else if opeq op "br-cmp" then Some (sx_res sx_cmp (rcmp oc x y))
+  else None.
+
+Definition run_br1 (op : list N) (oc : bool) (x : bigrat) : option sx :=
+  if opeq op "br-neg" then Some (XL [XS (B"ok"); sx_rat (rneg x)])
+  else if opeq op "br-simplify" then Some (sx_res sx_rat (simplify oc x))
+  else None.
+
+Definition is_br (op : list N) : bool :=
+  match op with 98 :: 114 :: _ => true | _ => false end.   (* "br..." *)
+
+(* expressions: ("lit" rat) ("i") ("add" a b) ("sub" a b) ("mul" a b) ("div" a b)
+   ("neg" a) ("pow" a b) ("real" a) ("imag" a) ("conj" a) *)
+Fixpoint as_cexp_fuel (fuel : nat) (s : sx) : option cexp :=
+  match fuel with
+  | O => None
+  | S f =>
+    match s with
+    | XL [XS k; a] =>
+      if opeq k "lit" then match as_rat a with Some r => Some (CLit r) | None => None end
+      else match as_cexp_fuel f a with
+           | Some x =>
+             if opeq k "neg" then Some (CNeg x)
+             else if opeq k "real" then Some (CReal x)
+             else if opeq k "imag" then Some (CImag x)
+             else if opeq k "conj" then Some (CConj x)
+             else None
+           | None => None
+           end
+    | XL [XS k] => if opeq k "i" then Some CI else None
+    | XL [XS k; a; b] =>
+      match as_cexp_fuel f a, as_cexp_fuel f b with
+      | Some x, Some y =>
+        if opeq k "add" then Some (CAdd x y)
+        else if opeq k "sub" then Some (CSub x y)
+        else if opeq k "mul" then Some (CMul x y)
+        else if opeq k "div" then Some (CDiv x y)
+        else if opeq k "pow" then Some (CPow x y)
+        else None
+      | _, _ => None
+      end
+    | _ => None
+    end
+  end.
+
+Fixpoint sx_depth (s : sx) : nat :=
+  match s with
+  | XL l => S (fold_right (fun x acc => Nat.max (sx_depth x) acc) O l)
+  | _ => 1%nat
+  end.
+
+Definition as_cexp (s : sx) : option cexp := as_cexp_fuel (S (sx_depth s)) s.
+
+Definition sx_value (v : value) : sx :=
+  XL [sx_bool (snd v); sx_rat (re (fst v)); sx_rat (im (fst v))].
+
+Definition sx_q (q : Q) : sx := XL [XA (Qnum q); XA (Zpos (Qden q))].
+
+Definition sx_cv (c : cv) : sx :=
+  match c with
+  | CV a b => XL [XS (B"v"); sx_q a; sx_q b]
+  | CUndef => XL [XS (B"undef")]
+  | COutside => XL [XS (B"outside")]
+  end.
+
 Definition run_num : dispatcher := fun op args =>
   match args with
   | [oc; a; b] =>
-    match as_bu a, as_bu b with
-    | Some x, Some y => run_bu2 op (as_oc oc) x y
-    | _, _ => Some sx_bad
-    end
+    if is_br op then
+      match as_rat a, as_rat b with
+      | Some x, Some y => run_br2 op (as_oc oc) x y
+      | _, _ => Some sx_bad
+      end
+    else
+      match as_bu a, as_bu b with
+      | Some x, Some y => run_bu2 op (as_oc oc) x y
+      | _, _ => Some sx_bad
+      end
   | [oc; a] =>
-    match as_bu a with
-    | Some x => run_bu1 op (as_oc oc) x
-    | None => Some sx_bad
-    end
+    if opeq op "ex-eval" then
+      match as_cexp a with Some e => Some (sx_res sx_value (meval (as_oc oc) e)) | None => Some sx_bad end
+    else if opeq op "ex-spec" then
+      match as_cexp a with Some e => Some (sx_cv (cval e)) | None => Some sx_bad end
+    else if opeq op "ex-known" then
+      match as_cexp a with Some e => Some (sx_bool (known_C01 (as_oc oc) e)) | None => Some sx_bad end
+    else if is_br op then
+      match as_rat a with
+      | Some x => run_br1 op (as_oc oc) x
+      | None => Some sx_bad
+      end
+    else
+      match as_bu a with
+      | Some x => run_bu1 op (as_oc oc) x
+      | None => Some sx_bad
+      end
   | _ => None
   end.
 
